@@ -235,6 +235,11 @@ class PropertyRun:
         os.remove(out)
         res['wall_s'] = time.time() - t0
         fails = res.pop('failures', [])
+        for kf in res.get('known_findings', []) or []:
+            rec = {'what': kf['what'] + ' [%d cases in the bounded suite, e.g. %s]' % (
+                kf.get('count', 0), json.dumps(kf.get('example', {}).get('args'), default=str)[:160])}
+            if not any(k['what'].startswith(kf['what']) for k in self.known):
+                self.known.append(rec)
         self.bounded.append(res)
         for f in fails:
             rec = {'property': self.pid, 'kind': 'bounded-contract-fired', 'oracle': f['oracle'], 'args': f['args'],
@@ -378,6 +383,8 @@ def match_known(pid, rec):
         if kf.get('kind') != 'open' or kf.get('property') != pid:
             continue
         if kf.get('oracle') and kf['oracle'] != rec.get('oracle'):
+            continue
+        if kf.get('oracles') and rec.get('oracle') not in kf['oracles']:
             continue
         cls = kf.get('witness_class')
         if cls:
